@@ -355,9 +355,14 @@ double splinetable<Alloc>::ndsplineeval_deriv(const double* x, const int* center
 						  x[n], centers[n], order[n],
 						  localbasis[n]);
 		} else {
+			//bspline_deriv takes the polynomial piece to the right of a knot,
+			//but the last supported point belongs to the piece on its left
+			double xn = x[n];
+			if (xn == knots[n][centers[n]+1])
+				xn = std::nextafter(xn, knots[n][centers[n]]);
 			for (uint32_t i = 0; i <= order[n]; i++)
 				localbasis[n][i] = bspline_deriv(
-												   &knots[n][0], x[n],
+												   &knots[n][0], xn,
 												   centers[n] - order[n] + i, 
 												   order[n], derivatives[n]);
 		}
@@ -573,9 +578,14 @@ double splinetable<Alloc>::evaluator_type<Float>::ndsplineeval_deriv(const doubl
 						  x[n], centers[n], table.order[n],
 						  localbasis[n]);
 		} else {
+			//bspline_deriv takes the polynomial piece to the right of a knot,
+			//but the last supported point belongs to the piece on its left
+			double xn = x[n];
+			if (xn == table.knots[n][centers[n]+1])
+				xn = std::nextafter(xn, table.knots[n][centers[n]]);
 			for (uint32_t i = 0; i <= table.order[n]; i++)
 				localbasis[n][i] = bspline_deriv(
-												   &table.knots[n][0], x[n],
+												   &table.knots[n][0], xn,
 												   centers[n] - table.order[n] + i, 
 												   table.order[n], derivatives[n]);
 		}
